@@ -155,6 +155,11 @@ class ModelBackend(object):
         self.clevel[id(f)] = self.tlevel.get(inst.token, 0)
         return f
 
+    def dd(self, inst, key):
+        f = MFut("const")
+        f.set(("dd", key))
+        return f
+
     def const(self, inst, v):
         f = MFut("const")
         f.set(v)
